@@ -20,6 +20,9 @@ def gen(rng, i):
             "cbs": sorted(rng.sample(around, rng.choice([1, 2, 2]))),
             "waits": [[rng.choice([0, at - 1, at, at + 1]), rng.choice(["result", "exception", "wait", "as_completed"])]
                       for _ in range(rng.choice([1, 2]))],
+            # clients asking running() / done() / cancelled() around the interesting instants
+            "probes": [[rng.choice([0, at - 1, at, at, at + 1]), rng.choice([1, 2, 3]), rng.choice([0, 1, 50])]
+                       for _ in range(rng.choice([0, 1, 1, 2]))],
             "horizon": 2000}
 
 
